@@ -491,6 +491,36 @@ func cacheCrashMain(args []string) {
 			w.cleanup()
 		}
 	}
+	// ---- entries: listing, counting, removing one entry leaves the others fetchable ---------------------
+	for _, kind := range kinds {
+		for _, backend := range []string{"mem", "os"} {
+			w := newCacheWorld(backend, "remote")
+			c, _ := w.client(kind, nil)
+			k1, k2 := c.GenerateKey("project", "a"), c.GenerateKey("project", "b")
+			caseTxt := fmt.Sprintf("cachecase %v %s entries", kind, backend)
+			rep.Eval(caseTxt, true)
+			rep.Hist("entries")
+			e1 := c.Store(ctx, k1, filepath.Join(w.base, "src", "v1"))
+			e2 := c.Store(ctx, k2, filepath.Join(w.base, "src", "v2"))
+			ents, lerr := c.GetEntries(ctx)
+			cnt, cerr := c.EntriesCount(ctx)
+			sort.Strings(ents)
+			wantE := []string{k1, k2}
+			sort.Strings(wantE)
+			if e1 != nil || e2 != nil || lerr != nil || cerr != nil || k1 == k2 || fmt.Sprint(ents) != fmt.Sprint(wantE) || cnt != 2 {
+				rep.Fail(hx.Failure{Kind: "impl-violates-property", Key: "entries-listing", Case: caseTxt, Expected: fmt.Sprint(wantE, " count 2"), Observed: fmt.Sprint(ents, " count ", cnt, " errors ", e1, e2, lerr, cerr)})
+			}
+			rerr := c.RemoveEntry(ctx, k1)
+			f1 := c.Fetch(ctx, k1, filepath.Join(w.base, "d1"))
+			f2 := c.Fetch(ctx, k2, filepath.Join(w.base, "d2"))
+			got2 := whichVersion(w.readTree(filepath.Join(w.base, "d2")))
+			if rerr != nil || f1 == nil || f2 != nil || got2 != "v2" {
+				rep.Fail(hx.Failure{Kind: "impl-violates-property", Key: "remove-entry", Case: caseTxt, Expected: "the removed entry cannot be fetched, the other one still installs v2",
+					Observed: fmt.Sprintf("RemoveEntry: %v; Fetch(removed): %v; Fetch(other): %v -> %s", rerr, f1, f2, got2)})
+			}
+			w.cleanup()
+		}
+	}
 	// ---- remote paths containing ".part" ------------------------------------------------------------
 	for _, kind := range kinds {
 		for _, backend := range []string{"mem", "os"} {
